@@ -33,6 +33,42 @@ theorem sequential (a b : List Change) (f : FileM) (m : Bool) :
     | ok f' k => simp only [applyChangesCli, ha]; exact ih f' true
     | fail e => simp [applyChangesCli, ha]
 
+/-! ### one run per change, each starting from the file the previous run printed -/
+
+/-- a chain of runs: one change per run; `rt` is what printing the result and parsing it again does to the tree
+(go/printer and go/parser are parameters of the model) -/
+def chainRuns (rt : FileM → FileM) : List Change → FileM → Bool → FileM × Bool × Option Err
+  | [], f, m => (f, m, none)
+  | c :: cs, f, m =>
+      match applyChange c f with
+      | .noMatch => chainRuns rt cs f m
+      | .ok f' _ => chainRuns rt cs (rt f') true
+      | .fail e => (f, false, some e)
+
+/-- every intermediate file of the combined run is a fixed point of print + re-parse (evaluated on the real
+trees by the harness command `stable`; where it fails the known finding F7 applies) -/
+def StableAlong (rt : FileM → FileM) : List Change → FileM → Prop
+  | [], _ => True
+  | c :: cs, f =>
+      match applyChange c f with
+      | .noMatch => StableAlong rt cs f
+      | .ok f' _ => rt f' = f' ∧ StableAlong rt cs f'
+      | .fail _ => True
+
+/-- **A patch with several changes, or several patches, is the chain of single-change runs** — as long as printing
+an intermediate file and parsing it again gives back the tree that was printed. -/
+theorem combined_eq_chain (rt : FileM → FileM) (cs : List Change) (f : FileM) (m : Bool) (h : StableAlong rt cs f) :
+    chainRuns rt cs f m = applyChangesCli cs f m := by
+  induction cs generalizing f m with
+  | nil => rfl
+  | cons c cs ih =>
+    unfold chainRuns applyChangesCli
+    unfold StableAlong at h
+    cases ha : applyChange c f with
+    | noMatch => simp only [ha] at h ⊢; exact ih f m h
+    | ok f' k => simp only [ha] at h ⊢; rw [h.1]; exact ih f' true h.2
+    | fail e => rfl
+
 /-- if any step fails the combined run reports the failure (and the CLI then leaves the file
 untouched: see `Gopatch.C16.failures_reported`, `Gopatch.Cli.stepFile`) -/
 theorem failure_reported (a b : List Change) (c : Change) (f : FileM) (m : Bool) (f' : FileM) (m' : Bool)
